@@ -98,17 +98,40 @@ def job_roundtrip(job):
                 # keyword blades with permuted spellings
                 kw = {}
                 expk = {}
+                spk = {}
                 for K in ks:
                     sp, sg = spellings(K)
                     if sp in kw:
                         continue
                     kw[sp] = supplied[K]
                     expk[K] = sg * supplied[K]
+                    spk[K] = (sp, sg)
                 got = _safe(lambda: alg.multivector(**kw))
                 out['evaluations'] += 1
                 if got[0] != 'value' or not O.eq(dict(zip(got[1].keys(), got[1].values())), expk):
                     fail({'config': cfg, 'form': 'keywords-permuted', 'what': 'permuted keyword blades dropped or mis-signed', 'kwargs': {k: str(v) for k, v in kw.items()},
                           'got': str(got)[:200], 'expected': {str(k): str(v) for k, v in expk.items()}})
+                # the same permuted spellings as keys of a mapping and as keys= names: a route that accepts them must apply the sign of the
+                # spelling (a route that rejects them raises; either is consistent with the statement, a silently unsigned value is not)
+                for route in ('mapping', 'keys'):
+                    out['evaluations'] += 1
+                    got3 = _safe((lambda: alg.multivector(dict(kw))) if route == 'mapping' else (lambda: alg.multivector(keys=tuple(kw), values=list(kw.values()))))
+                    if got3[0] == 'value' and not O.eq(dict(zip(got3[1].keys(), got3[1].values())), expk):
+                        fail({'config': cfg, 'form': route + '-permuted-names', 'what': 'permuted blade names accepted as keys but the coefficients were dropped or mis-signed',
+                              'names': {k: str(v) for k, v in kw.items()}, 'got': str(got3)[:200], 'expected': {str(k): str(v) for k, v in expk.items()}})
+                # the same keyword blades again on the same algebra, in another order and with other values (a keyword argument is
+                # identified by its name, never by its position or by what an earlier call with these names did)
+                if len(kw) >= 2:
+                    items_ = list(kw.items())
+                    for order in (list(reversed(items_)), items_[1:] + items_[:1]):
+                        kw2 = {sp_: v_ * 3 + 1 for sp_, v_ in order}
+                        got2 = _safe(lambda: alg.multivector(**kw2))
+                        out['evaluations'] += 1
+                        exp2 = {K: sg_ * kw2[sp_] for K, (sp_, sg_) in spk.items()}       # per blade: sign of its spelling * the value given under that name
+                        if got2[0] != 'value' or not O.eq(dict(zip(got2[1].keys(), got2[1].values())), exp2):
+                            fail({'config': cfg, 'form': 'keywords-reordered', 'what': 'keyword blades given in another order than in an earlier call were paired with the wrong values',
+                                  'first_call': {k: str(v) for k, v in kw.items()}, 'kwargs': {k: str(v) for k, v in kw2.items()},
+                                  'got': str(got2)[:200], 'expected': {str(k): str(v) for k, v in exp2.items()}})
                 # grade(), asfullmv(), map(), filter()
                 for gsel in [(g,) for g in range(alg.d + 1)] + [tuple(range(alg.d + 1))]:
                     gm = m.grade(*gsel)
